@@ -371,6 +371,25 @@ theorem isGrammar_eq' (t : Str) :
   cases (t == [40]) <;> cases (t == [41]) <;> cases (t == [97, 110, 100]) <;> cases (t == [111, 114]) <;>
     cases (t == [119, 105, 116, 104]) <;> rfl
 
+/-- x8: membership in the set of the five grammar words, in whatever order the display lists them: any list of values with
+the same members -/
+theorem any_grammar (l : List PyVal) (t : Str)
+    (h : ∀ x, x ∈ l ↔ x ∈ [PyVal.str kOr, .str kAnd, .str kWith, .str kLP, .str kRP]) :
+    l.any (PyVal.eq (.str t)) = isGrammar t := by
+  have heq : ∀ y : PyVal, PyVal.eq (.str t) y = true ↔ y = .str t := by
+    intro y
+    cases y with
+    | str b => simp only [eq_str, beq_iff_eq, PyVal.str.injEq]; exact eq_comm
+    | _ => simp [PyVal.eq]
+  have e : ∀ (l : List PyVal), l.any (PyVal.eq (.str t)) = true ↔ PyVal.str t ∈ l := by
+    intro l
+    simp only [List.any_eq_true, heq]
+    constructor
+    · rintro ⟨x, hx, rfl⟩; exact hx
+    · intro hx; exact ⟨_, hx, rfl⟩
+  rw [Bool.eq_iff_iff, e, h]
+  simp [isGrammar, kOr, kAnd, kWith, kLP, kRP, or_assoc]
+
 theorem upper_grammar {t : Str} (h : isGrammar t = true) : t.map upperAscii = upperOp t := by
   simp only [isGrammar, Bool.or_eq_true, beq_iff_eq] at h
   rcases h with (((h | h) | h) | h) | h <;> subst h <;> decide
@@ -433,9 +452,14 @@ local macro "second_loop" : tactic => `(tactic| (
       obtain ⟨a, b, c, n⟩ := s
       simp only at hn
       subst hn
-      simp only [pairVal, unpack2_tuple, ok_bind, contains_set_str, contains_tuple_str, contains_list_str, List.any_cons, List.any_nil, eq_str, Bool.or_false,
+      -- the test `token in {…five grammar words…}`, whatever kind of display and whatever order: `any_grammar`
+      simp only [pairVal, unpack2_tuple, ok_bind, contains_set_str, contains_tuple_str, contains_list_str,
         s_or, s_and, s_with, s_WITH, s_plus, s_ref, s_reflower, s_empty, s_lp, s_rp]
-      simp only [isGrammar_eq, isGrammar_eq', normStep]
+      rw [any_grammar _ t (by
+        intro x
+        simp only [List.mem_cons, List.mem_nil_iff, or_false, Lic.kOr, Lic.kAnd, Lic.kWith, Lic.kLP, Lic.kRP] <;>
+          (constructor <;> (intro hx; rcases hx with hx | hx | hx | hx | hx <;> simp [hx])))]
+      simp only [List.any_cons, List.any_nil, eq_str, Bool.or_false, normStep]
       by_cases hg : Lic.isGrammar t = true
       · simp only [hg, if_true, str_upper_str, list_append_list, ok_bind, upper_grammar hg]
         exact ⟨_, rfl, by simp⟩
